@@ -121,7 +121,7 @@ class Obligation:
     def __init__(self, name, pc, goal, unit, path, kind, expect_sat=False, note=""):
         self.name, self.pc, self.goal, self.unit, self.path = name, pc, goal, unit, path
         self.kind, self.expect_sat, self.note = kind, expect_sat, note
-        self.inputs = {}
+        self.watch = {}
 
 
 def _flatten_and(g):
@@ -166,6 +166,7 @@ class Run:
         self.ghost = {}
         self.cur_exc = []
         self.specfun_stack = [{}]
+        self.watch = {}
 
     # ---------------------------------------------------------------- decisions / assumptions
     def assume(self, cond):
@@ -173,6 +174,10 @@ class Run:
             cond = z3.BoolVal(cond)
         c = z3.simplify(cond)
         if z3.is_true(c):
+            return
+        if z3.is_and(cond):
+            for cj in _flatten_and(cond):
+                self.assume(cj)
             return
         self.pc.append(cond)
         self.solver_add(cond)
@@ -234,11 +239,13 @@ class Run:
                 self.oblige(f"{name}.{k}", z3.Implies(goal.arg(0), cj), kind=kind, note=note)
             return
         g = z3.simplify(goal)
-        if z3.is_true(g) and not expect_sat:
+        if not expect_sat and (z3.is_true(g) or any(goal.eq(h) for h in self.pc)):
+            # trivially true, or literally one of the hypotheses
             self.x.trivial += 1
             self.x.note_trivial(name)
             return
         ob = Obligation(name, list(self.pc), goal, self.x.unit_name, list(self.trace), kind, expect_sat, note)
+        ob.watch = dict(self.watch)
         self.obligations.append(ob)
         if not expect_sat and kind in ("safe", "pre", "assert"):
             # after asserting, assume (standard: avoids cascades of the same failure)
@@ -409,6 +416,15 @@ class Run:
                 hint = fr.local_types.get(t0.id) or self.x.local_type(fr.finfo, t0.id)
             elif isinstance(t0, ast.Attribute):
                 hint = self.attr_type_hint(t0, fr)
+            elif isinstance(t0, ast.Subscript) and isinstance(st.value, (ast.List, ast.Dict, ast.Call)):
+                try:
+                    cont = self.ev(t0.value, fr)
+                    if isinstance(cont, Val) and isinstance(cont.ty, TDict):
+                        hint = cont.ty.v
+                    elif isinstance(cont, Val) and isinstance(cont.ty, TSeq):
+                        hint = cont.ty.elem
+                except EngineError:
+                    hint = None
         v = self.ev_typed(st.value, fr, hint)
         for t in st.targets:
             self.assign(t, v, fr)
